@@ -70,19 +70,6 @@ Section ScipyContract.
   Proof. intros H. unfold EW_pdf. destruct a, b, d; cbn; destruct (Rlt_dec 0 x); try lra; reflexivity. Qed.
 End ScipyContract.
 
-(* ---- consistency of cdf / icdf / pdf from the loc-scale contract, for any family whose four
-   methods are called with one and the same parameter list (X_same_map) *)
-Section Consistency.
-  Variable sts : call R -> R -> R.
-  Variable fam : string.
-  Variable ps : list R.
-  Notation cdf := (sts (mkcall fam "cdf" ps)). Notation ppf := (sts (mkcall fam "ppf" ps)).
-  Hypothesis ppf_cdf : forall x, ppf (cdf x) = x.          (* scipy contract on the support, same parameters *)
-  Hypothesis cdf_ppf : forall p, 0 < p < 1 -> cdf (ppf p) = p.
-  Lemma icdf_cdf_roundtrip x : ppf (cdf x) = x. Proof. apply ppf_cdf. Qed.
-  Lemma cdf_icdf_roundtrip p : 0 < p < 1 -> cdf (ppf p) = p. Proof. apply cdf_ppf. Qed.
-End Consistency.
-
 (* ---- C12: likelihood of a loc-scale family is equivariant under x -> c x, loc -> c loc, scale -> c scale *)
 Section Equivariance.
   Variable f0 : R -> R.   (* standard density of the family for fixed shapes *)
